@@ -80,5 +80,15 @@ class World:
             ret += f.ledger["ret"]
         return {"calls": calls, "req": req, "ret": ret}
 
+    def step_allowance(self, base: int, per_byte: float, request: int = 0):
+        """Allowance function for the step meter: base + per_byte * min(bytes delivered since now, bytes stored + request)."""
+        start = self.total_ledger()["ret"]
+        stored = sum(f.stored_bytes() for f in self.fs.files.values()) + request
+
+        def allow():
+            return int(base + per_byte * min(self.total_ledger()["ret"] - start, stored))
+
+        return allow
+
     def mutated(self) -> list:
         return list(MONITOR.mutations)
